@@ -7,7 +7,7 @@ from engine import common, cmh, logh
 from engine.kit import zx, ev
 from engine.nbsym import Executor, State, Val, types, mk_int, Unsupported
 
-N_IDEAL_GROUPS = 14
+N_IDEAL_GROUPS = 15
 AXIOMS = ["pow(b,0) = 1", "pow(b,x) > 0", "x < y <=> pow(b,x) < pow(b,y)  (b > 1)", "y = x+1 => pow(b,y) = b*pow(b,x)",
           "X = pow(b,x) => log(X) = x*log(b)", "0 < X < pow(b,x) => log(X) < x*log(b)", "X > pow(b,x) => log(X) > x*log(b)", "X > 1 => log(X) > 0", "log(b) > 0 (b > 1)", "X < Y <=> log(X) < log(Y) (X,Y > 0)",
           "e <= log(X)/log(b) <=> pow(b,e) <= X  (X > 0, b > 1)"]
@@ -132,6 +132,7 @@ def ob_merge_ideal(bits, timeout_ms, only=None):
         ("merged counter is never below either input", z3.And(rI >= caI, rI >= cbI)),
         ("decoded sum >= max_count => ceiling", z3.Implies(v >= z3.ToReal(mI), rI == umax)),
         ("reserved range exact", z3.Implies(v <= z3.ToReal(nrI), rI == caI + cbI)),
+        ("lower bound through merges: merged counter >= min(a + b, num_reserved + 1)", z3.If(caI + cbI <= nrI, rI >= caI + cbI, rI >= nrI + 1)),
         ("commutative: a.merge(b) and b.merge(a) give the same counter", rI == zi_of(post2.heap[b.cms.sid][0])),
         ("argument untouched, n_added / n_records summed",
          z3.And(zi_of(post.heap[b.cms.sid][0]) == cbI, zi_of(post.heap[a.nar.sid][0]) == nA[0] + nB[0], zi_of(post.heap[a.nar.sid][1]) == nA[1] + nB[1],
@@ -144,7 +145,11 @@ def ob_merge_ideal(bits, timeout_ms, only=None):
     for i, (kind, cond) in enumerate(post.oblig):
         goals.append((f"no wrap-around / division by zero [{i}] {kind}", z3.Not(cond)))
     insts = {}
-    if only is not None:
+    if isinstance(only, str):
+        goals = [g for g in goals if only in g[0]]
+        if not goals:
+            return {"status": "error", "note": f"no goal matches {only!r}", "funcs": funcs}
+    elif only is not None:
         goals = [g for i, g in enumerate(goals) if i % N_IDEAL_GROUPS == only]
     for name, g in goals:
         ax, cnt = instantiate(assume + [g], base)
